@@ -50,10 +50,11 @@ def gen(rng, tier, idx):
                                'boundary_int32', 'already_int', 'half_values', 'neg_half_min', 'boundary_neg_128',
                                'boundary_neg_32768', 'boundary_127', 'boundary_neg_int32']),
          'encoding': rng.choice(['dense', 'csr', 'csc']), 'layer': rng.choice([None, None, 'raw_counts']),
-         'h5_chunks': rng.choice([None, [1, 1], [3, 2], [1000, 1000]]),
+         'h5_chunks': rng.choice([None, [1, 1], [3, 2], [4, 3], [1000, 1000]]),
          'genes': rng.choice(['ensembl', 'ensembl_versioned', 'symbols', 'mixed', 'mixed', 'collision',
                               'duplicate', 'empty_name', 'dotted_symbols', 'mixed_dotted']),
          'dup_cells': rng.random() < 0.08, 'density': rng.choice([0.3, 0.7, 1.0]),
+         'boundary_last': rng.random() < 0.5,
          'obs_cols': rng.random() < 0.6}
     return {'file': f, 'round_to_int': rng.random() < 0.75, 'explicit_mapper': rng.random() < 0.5,
             'use_output_dir': rng.random() < 0.4, 'kcfg': common.draw_kernel_cfg(rng), 'enumerate': True}
@@ -133,6 +134,10 @@ def make_file(f):
     ids = ['cell_%d' % i for i in range(n)]
     if f['dup_cells'] and n >= 2:
         ids[1] = ids[0]
+    if f.get('boundary_last') and V.size >= 2:
+        # the value that decides the integer type sits in the LAST stored element instead of the first (the min/max
+        # scan of a chunked sparse array reads the data in blocks; a short final block must be read as well)
+        V[n - 1, c - 1], V[0, 0] = V[0, 0], V[n - 1, c - 1]
     return V.astype(dtype), ids, genes
 
 
